@@ -339,7 +339,18 @@ pub mod thread {
         // time does not exist under the model checker: a sleep is a scheduling point
         loom::thread::yield_now()
     }
+    /// `std::thread::park` "may also return spuriously, without a matching unpark": the harness can
+    /// make the n-th park call of an execution (counted over all threads) return at once.
+    pub static SPURIOUS_AT: std::sync::atomic::AtomicIsize = std::sync::atomic::AtomicIsize::new(-1);
+    pub static PARK_CALLS: std::sync::atomic::AtomicIsize = std::sync::atomic::AtomicIsize::new(0);
     pub fn park() {
+        let n = PARK_CALLS.fetch_add(1, std::sync::atomic::Ordering::SeqCst);
+        if n == SPURIOUS_AT.load(std::sync::atomic::Ordering::SeqCst) {
+            trace::enter("park(spurious wake-up)");
+            loom::thread::yield_now();
+            trace::leave();
+            return;
+        }
         trace::enter("park");
         loom::thread::park();
         trace::leave();
